@@ -23,6 +23,7 @@ h_hast = z3.Function("h_has_trigger", z3.IntSort(), z3.BoolSort())    # acc'_i.t
 h_acc = z3.Function("h_acc", z3.IntSort(), z3.IntSort())              # identity of acc_i
 h_af = z3.Function("h_af", z3.IntSort(), z3.IntSort())                # identity of acc_i.accumulator_for(el_i)
 h_el = z3.Function("h_el", z3.IntSort(), z3.IntSort())                # identity of el_i
+h_generic = z3.Function("h_generic", z3.IntSort(), z3.BoolSort())     # el_i is a generic capture ($x, *): its name is None
 ev_intercept = z3.Function("ev_intercept", Val, Val, Val, Val, Val, Val)
 ev_log = z3.Function("ev_log", Val, Val, Val, Val, Val, Val)
 ev_trigger = z3.Function("ev_trigger", Val, Val, Val)
@@ -43,7 +44,10 @@ class Handlers:
     def element(self, i):
         i = _ix(i)
         tags = SymObj("tags", Val.ref(z3.IntVal(-1)), attrs={"__truthy__": h_tags(i)})
-        return SymObj("el", Val.ref(h_el(i)), attrs={"tags": tags, "_index": i}, cls=None)
+        # the element's name: None for a generic capture, else the variable's name (whether the entry applies to THIS binding is
+        # decided by check_element -- name and category -- for generic and named elements alike)
+        name = SVal(z3.If(h_generic(i), Val.none, Val.str(z3.StringVal("x"))))
+        return SymObj("el", Val.ref(h_el(i)), attrs={"tags": tags, "_index": i, "name": name}, cls=None)
 
     def acc_for(self, i):
         i = _ix(i)
@@ -227,7 +231,7 @@ INTERACT_TARGETS = [I + ":Interactor.interact", I + ":Interactor.work_on", I + "
                     TR + ":Key.affix_to", TR + ":PteraNameError.__init__", TR + ":PteraNameError.info"]
 
 
-@unit("interact", ["C02", "C04", "C16", "C01", "C12"], INTERACT_TARGETS, replay=_replay_file("c04_interact.py"),
+@unit("interact", ["C02", "C04", "C16", "C01", "C12", "C11"], INTERACT_TARGETS, replay=_replay_file("c04_interact.py"),
       assumed=["check_element is used through its contract (boolean function of element, name, category; proved under C11)",
                "accumulator_for of an opaque accumulator is effect-free for interact (forking is specified under C07)"])
 def u_interact(c):
@@ -238,7 +242,7 @@ def u_interact(c):
     _interact_harness(c, "sym")
 
 
-@unit("interact-bounded", ["C02", "C04", "C16", "C01", "C12"], INTERACT_TARGETS, mode="bounded", bound="2 handler entries for the variable, key None, triggers present, tags iff intercept present",
+@unit("interact-bounded", ["C02", "C04", "C16", "C01", "C12", "C11"], INTERACT_TARGETS, mode="bounded", bound="2 handler entries for the variable, key None, triggers present, tags iff intercept present",
       fallback_for="interact", replay=_replay_file("c04_interact.py"))
 def u_interact_b(c):
     """Bounded stand-in for 'interact' (2 concrete entries with symbolic fields)."""
